@@ -168,3 +168,25 @@ Definition py_pickle_load {A} (f : fhandle) : PM A A :=
          | Some FGarbage => (w, PErr PUnpicklingError)
          | None => (w, PErr POSError)
          end.
+
+(* ------------------------------------------------------------------ *)
+(** * Multivariate.from_dict on a dict of Python values (a vine dict)   *)
+Inductive mvclass := MVine | MGaussian.
+(* x.rsplit(sep, maxsplit) unpacked into two names *)
+Definition py_rsplit2_pv (x : pv) (sep : string) (maxsplit : nat) : result (string * string) :=
+  match x with
+  | PJ (JStr s) => if String.eqb sep "." && (maxsplit =? 1)
+                   then match rsplit_dot s with Some mn => Ok mn | None => Err ValueErr end
+                   else Err Unmodelled
+  | _ => Err AttributeErr
+  end.
+(* getattr(importlib.import_module(package), name): the two multivariate classes (by their module or by the package that
+   re-exports them); every other name is outside this model *)
+Definition py_import_getattr_mv (m n : string) : result mvclass :=
+  if (String.eqb m "copulas.multivariate.vine" || String.eqb m "copulas.multivariate") && String.eqb n "VineCopula" then Ok MVine
+  else if (String.eqb m "copulas.multivariate.gaussian" || String.eqb m "copulas.multivariate") && String.eqb n "GaussianMultivariate"
+       then Ok MGaussian
+  else Err Unmodelled.
+(* <class>.from_dict(params) - the class object is NOT instantiated; a GaussianMultivariate dict is a [jv]: Gen_gmctl.v / C19_gm.v *)
+Definition py_mvclass_from_dict {R : Type} (c : mvclass) (vine_from_dict : pv -> result R) (params : pv) : result R :=
+  match c with MVine => vine_from_dict params | MGaussian => Err Unmodelled end.
